@@ -6,7 +6,7 @@
    ops) and by the table Gen/C13Consts.v printed from the compiled package. *)
 From Coq Require Import Floats.SpecFloat.
 From HV Require Import Base.Prelude Patch.Msgpack Patch.Path Patch.Float Patch.Ops Patch.Cond
-  Patch.DocSpec Patch.MsgpackProofs Patch.OpsProofs Patch.FrameProofs Patch.RefineProofs Gen.C13Consts.
+  Patch.DocSpec Patch.MsgpackProofs Patch.OpsProofs Patch.FrameProofs Patch.RefineProofs Patch.MergeProofs Gen.C13Consts.
 Local Open Scope N_scope.
 
 (* All 256 lead bytes: the model's classifiers (map/array/string/integer/float code, numeric
@@ -158,3 +158,16 @@ Theorem C13_ops_refine_docspec_refuted :
     decode body = Ok d /\ (exists d', doc_patch d ops None = Ok d').
 Proof. exact ops_refine_docspec_refuted_for_container_then_navigate. Qed.
 Print Assumptions C13_ops_refine_docspec_refuted.
+
+(* MERGE never manufactures duplicate keys: for ANY merge value (repeated keys, keys new to the
+   target or not) a target with pairwise distinct keys stays so, and every key of the value is
+   present afterwards. *)
+Theorem C13_merge_no_duplicate_keys : forall pfs target,
+  NoDup (keys target) -> NoDup (keys (merge_into target pfs)).
+Proof. exact merge_into_nodup. Qed.
+Print Assumptions C13_merge_no_duplicate_keys.
+
+Theorem C13_merge_has_all_keys : forall pfs target k,
+  In k (map fst pfs) -> In k (keys (merge_into target pfs)).
+Proof. exact merge_into_has_all_keys. Qed.
+Print Assumptions C13_merge_has_all_keys.
